@@ -51,7 +51,7 @@ theorem BitInv.elem {P : Prims} {V : St → List Val} (hR : Rec P V) {s s' : St}
     simp only [h2] at h
     obtain ⟨v, hv⟩ := stValue_grow hR _ _ _ _ h
     obtain ⟨sd, sl, sr⟩ := stValue_ok hR.quiet h
-    obtain ⟨qd, qv⟩ := stQa_shape hR e _ s2 h2
+    obtain ⟨qd, qv, _⟩ := stQa_shape hR e _ s2 h2
     have qr := stQa_regs e _ s2 h2
     have qo := stQa_ok h2
     rw [hR.setRegs] at qv
